@@ -188,8 +188,19 @@ def build_group(task):
             if task['variants'] and style < 0.3 and plain and (
                     isinstance(x, (bool, str)) or x >= 0):
                 optext.append(literal(x))           # a literal scalar
+            elif task['variants'] and style < 0.5 and plain and '(' not in template and (
+                    isinstance(x, (bool, str)) or x >= 0):
+                # (operators only: the statement gives functions "equally shaped
+                # arrays and scalars", a 1x1 array is neither)
+                optext.append('{' + literal(x) + '}')       # a 1x1 array constant
             else:
                 optext.append(ref(OP_ROW, c0, 1, 1))
+                if task['variants'] and style > 0.75 and x is not None:
+                    # the operand is a formula cell two steps away from its value:
+                    # cells evaluated lazily while the array formula is
+                    cells[f'{xl_col(c0)}{OP_ROW + 5}'] = x
+                    cells[f'{xl_col(c0)}{OP_ROW + 6}'] = f'={xl_col(c0)}{OP_ROW + 5}'
+                    cells[f'{xl_col(c0)}{OP_ROW}'] = f'={xl_col(c0)}{OP_ROW + 6}'
         elif task['variants'] and style < 0.2 and plain:
             optext.append('{' + ';'.join(                 # an array constant
                 ','.join(literal(vals[(i, j)]) for j in range(1, w + 1))
@@ -490,6 +501,18 @@ def library_checks(v, vectors, cfgname, found):
                 found.setdefault('library lift', []).append(
                     (f'{what} on shapes {vec["shapes"]}: got {short(got)}, '
                      f'expected {want_res!r}', case))
+            # a 1x1 ARRAY (the constant {10}, a lifted function over one element)
+            # next to a larger operand is repeated in both directions like a scalar
+            if vec['form'] == 'op' and (1, 1) in shapes and \
+                    not all(s == (1, 1) for s in shapes):
+                args1 = [to_py(e) for e in vec['elems']]
+                got = call(fixup, args1[0], 'Add', args1[1])
+                v.case(('lib-lift-1x1-array', cfgname, vec['form'], json.dumps(vec['kinds']),
+                        json.dumps(vec['shapes'])))
+                if isinstance(got, Exception) or not xl.same_value(got, want_res):
+                    found.setdefault('library lift', []).append(
+                        (f'{what} on shapes {vec["shapes"]} with the 1x1 operand given as a '
+                         f'1x1 array: got {short(got)}, expected {want_res!r}', case))
         # the fit depends on the result and the target only
         if st == (1, 1):
             continue        # a 1x1 target is loaded as a plain formula
